@@ -73,9 +73,12 @@ const (
 	FNStr               // named string type
 	FNBool              // named bool type
 	FPBool              // *bool
+	FInt                // int
+	FInts               // []int
+	FInt8               // int8
 )
 
-var fkindNames = []string{"string", "[]string", "bool", "*string", "lexer.Token", "[]lexer.Token", "*P", "[]*P", "P", "[]P", "U", "[]U", "NamedString", "NamedBool", "*bool"}
+var fkindNames = []string{"string", "[]string", "bool", "*string", "lexer.Token", "[]lexer.Token", "*P", "[]*P", "P", "[]P", "U", "[]U", "NamedString", "NamedBool", "*bool", "int", "[]int", "int8"}
 
 func (k FKind) String() string { return fkindNames[k] }
 
@@ -106,6 +109,7 @@ type Grammar struct {
 	Lookahead int      `json:"lookahead"`
 	CI        []string `json:"ci,omitempty"`    // case-insensitive token types
 	Elide     []string `json:"elide,omitempty"` // elided token types
+	Profile   string   `json:"profile,omitempty"` // lexer profile: "" stateful test lexer, "scanner" default text/scanner lexer
 }
 
 func (g *Grammar) IsCI(typ string) bool {
@@ -349,6 +353,8 @@ var (
 	tNStr   = reflect.TypeOf(NamedString(""))
 	tNBool  = reflect.TypeOf(NamedBool(false))
 	tEmpty  = reflect.TypeOf(struct{}{})
+	tInt    = reflect.TypeOf(int(0))
+	tInt8   = reflect.TypeOf(int8(0))
 )
 
 var typeSerial uint64
@@ -408,6 +414,12 @@ func (g *Grammar) Types() []reflect.Type {
 				ft = tNBool
 			case FPBool:
 				ft = reflect.PtrTo(tBool)
+			case FInt:
+				ft = tInt
+			case FInts:
+				ft = reflect.SliceOf(tInt)
+			case FInt8:
+				ft = tInt8
 			}
 			sf = append(sf, reflect.StructField{Name: fmt.Sprintf("F%d", fi), Type: ft, Tag: tags[fi]})
 		}
@@ -426,7 +438,7 @@ func (g *Grammar) Types() []reflect.Type {
 
 func (g *Grammar) String() string {
 	var sb strings.Builder
-	fmt.Fprintf(&sb, "lookahead=%d ci=%v elide=%v\n", g.Lookahead, g.CI, g.Elide)
+	fmt.Fprintf(&sb, "lexer=%s lookahead=%d ci=%v elide=%v\n", g.Prof().Name, g.Lookahead, g.CI, g.Elide)
 	for i, u := range g.Unions {
 		fmt.Fprintf(&sb, "U%d =", i)
 		for j, m := range u.Members {
@@ -491,10 +503,42 @@ func (g *Grammar) NamesElided() bool {
 			if (e.Kind == KRef || e.Kind == KLit) && e.T != "" && g.IsElided(e.T) {
 				found = true
 			}
-			if e.Kind == KLit && e.T == "" && g.IsElided(typeOfText(e.S)) {
+			if e.Kind == KLit && e.T == "" && g.IsElided(g.Prof().TypeOfText(e.S)) {
 				found = true
 			}
 		})
 	}
 	return found
+}
+
+// IsNumeric reports whether captures into the field are converted with strconv.
+func (k FKind) IsNumeric() bool { return k == FInt || k == FInts || k == FInt8 }
+
+// NumBits is the bit size used for the conversion.
+func (k FKind) NumBits() int {
+	if k == FInt8 {
+		return 8
+	}
+	return strconv.IntSize
+}
+
+// NumericValues returns the values an accepted capture event stores into a numeric field, or an
+// error if strconv rejects the captured text (several tokens captured at once into a scalar are
+// joined first; slices convert every token separately).
+func NumericValues(k FKind, vals []string) ([]int64, error) {
+	if len(vals) == 0 {
+		return nil, nil
+	}
+	if k != FInts && len(vals) > 1 {
+		vals = []string{strings.Join(vals, "")}
+	}
+	var out []int64
+	for _, v := range vals {
+		n, err := strconv.ParseInt(v, 0, k.NumBits())
+		if err != nil {
+			return nil, err
+		}
+		out = append(out, n)
+	}
+	return out, nil
 }
